@@ -102,7 +102,9 @@ def stepFirst (cfg : Cfg) (t : Nat) : Event → ObsState × List Delivery
       | none => (.ended, [.response m, .errback .notObservable, .stopInterest])
       | some v => (.observing v t, [.response m])
   | .exception k =>
-    (.ended, .responseExc k :: (if cfg.observe then [.errback .notObservable] else []))
+    -- `protocol.py:738-746` (second `fix:` commit for C07): the observation is told the
+    -- transport's exception, not `NotObservable`
+    (.ended, .responseExc k :: (if cfg.observe then [.errback (.transport k)] else []))
   | .obsCancel => (.unmodelled, [])
   | .respCancel => (.ended, [.stopInterest])
 
